@@ -319,3 +319,13 @@ Example C06_monitor_reports_known_finding :
              (trace (init 1 ignore_ctx true true true) (early_cancel_schedule ++ [LTimeout 0; LClose 0; LClose 0]) ++ [AQuiescent]))
   = [7; 8].
 Proof. exact early_cancel_monitor_rejects. Qed.
+
+(** handleMessage's failure exits (handler error, recovered panic) are part of the model ([LFail]):
+    every theorem above quantifies over them; a concrete run *)
+Example C06_failing_handler_example :
+  match replay (init 1 ignore_ctx true true true) failing_handler_schedule with
+  | Some s => returned s 0 RNil && quiescent_b s && negb (panicked s) &&
+              match mon_run 1 (fun _ => true) (trace (init 1 ignore_ctx true true true) failing_handler_schedule ++ [AQuiescent]) with [] => true | _ => false end
+  | None => false
+  end = true.
+Proof. exact failing_handler_example. Qed.
